@@ -37,6 +37,13 @@ def gen_history(rng, maxlen):
                 p = r + ('/' + sub if sub else '') + '/' + nm
                 nodes.append(['f', p, 'content of ' + p])
                 files.append(p)
+    # symbolic links (to a file, to an existing directory, to nothing) are entries like any other
+    for r in roots:
+        if rng.random() < 0.5:
+            for nm, tgt in (('lnk_f', '/canary/file'), ('lnk_d', '/canary/dir'), ('lnk_x', 'no/where')):
+                if rng.random() < 0.6:
+                    nodes.append(['l', r + '/' + nm, tgt])
+                    files += [r + '/' + nm] * 4
     if rng.random() < 0.3:
         p = rng.choice(roots) + '/' + '/'.join(['\u6f22' * 80] * rng.choice([6, 7])) + '/report.txt'
         nodes.append(['f', p, 'content of a file with a long path'])
